@@ -7,14 +7,18 @@ namespace Rbp.Props.C02
 open Run
 
 /-- the whole-program model: when every height of `start..maxH` can be served (record present, file present, block parses,
-    verification passes if requested), the run delivers exactly `start, start+1, …, maxH` — ascending, each once — and exits 0 -/
+    verification passes if requested), the run delivers exactly `start, start+1, …, maxH` — ascending, each once — and
+    completes: exit 0 for csvdump / unspentcsvdump / opreturn; for simplestats / balances exit 0 unless the callback's own
+    u64 arithmetic panics on the delivered values (exit 101; see `Run.callbackPanics`) -/
 theorem delivered_eq_range (o : Opts) (key : Option W.Bytes) (kvs : List (W.Bytes × W.Bytes)) (files : List BlkFile)
     (coin : Coin) (ld : Loaded) (hcoin : coinOf o.coin = some coin) (hld : loadIndex o kvs = .ok ld)
     (hfiles : (files.filterMap fun f => (parseBlkIndex f.name).map fun n => (n, f)) ≠ [])
     (hkey : key ≠ some [])
     (hs : ∀ k, o.start ≤ k → k < o.start + (ld.maxH + 1 - o.start) →
       Servable coin o key (files.filterMap fun f => (parseBlkIndex f.name).map fun n => (n, f)) ld.trimmed k) :
-    (run o key kvs files).delivered = List.range' o.start (ld.maxH + 1 - o.start) ∧ (run o key kvs files).exit = 0 :=
+    (run o key kvs files).delivered = List.range' o.start (ld.maxH + 1 - o.start) ∧
+    ((run o key kvs files).exit = 0 ∨ (run o key kvs files).exit = 101) ∧
+    (o.callback ≠ "simplestats" → o.callback ≠ "balances" → (run o key kvs files).exit = 0) :=
   run_delivers_range o key kvs files coin ld hcoin hld hfiles hkey hs
 
 /-- the upper end is `min(--end, tip)`, and the tip itself when no `--end` is given (both inclusive) -/
